@@ -70,7 +70,7 @@ def main(tier):
         mk = mitcross.mit_keytab_cross(wd, 300 if not run.thorough else 2000)
         run.extra["keytabformat_vs_mit_reader"] = {k: v for k, v in mk.items() if k != "first"}
         if mk.get("disagreements"):
-            raise vlib.Inconclusive("KeytabFormat and MIT's keytab reader disagree on %d files; first: %s" % (mk["disagreements"], mk["first"]))
+            vlib.spec_validation_problem(run, "KeytabFormat and MIT's keytab reader disagree on %d files; first: %s" % (mk["disagreements"], mk["first"]))
         trace = os.path.join(wd, "trace.ndjson")
         vlib.run_harness(["c14", "-out", trace, "-images", os.path.join(wd, "images.ndjson"), "-lookups", os.path.join(wd, "lookups.ndjson"),
                           "-queries", os.path.join(wd, "queries.ndjson")], timeout=3000, ok_codes=(0, 3))   # 3: stopped after calls that never returned; the trace is a prefix
